@@ -96,6 +96,9 @@ CURATED = [
     # nullable left operands (derivative of concat must look at the right operand)
     ('concat', ('star', C), C), ('concat', ('opt', R), ('opt', R)), ('concat', ('union', 'eps', C), R),
     ('concat', ('comp', C), C), ('concat', ('inter', ('star', C), ('star', C)), C),
+    # derivatives that are empty semantically but not syntactically (emptiness must be decided, not pattern-matched)
+    ('comp', ('concat', C, ('union', 'eps', ('plus', 'allchar')))), ('inter', ('concat', C, C), ('concat', ('ref', 0), C)),
+    ('comp', ('union', 'eps', ('plus', 'allchar'))), ('inter', ('concat', C, R), ('concat', ('ref', 0), ('comp', ('ref', 1)))),
     # start_char traps: semantically empty operands
     ('concat', R, ('inter', C, C)), ('inter', 'allchar', ('concat', C, C)), ('concat', ('inter', R, R), R), ('loop', ('inter', C, C)),
     ('concat', C, ('diff', R, ('ref', 1))), ('union', ('inter', C, C), C),
@@ -110,7 +113,7 @@ def _costs():
         return {}
 
 
-QUICK_CPU_CAP = {'C01': 600.0, 'C03': 150.0, 'C05': 600.0, 'C18': 60.0, 'C02': 90.0, 'C19': 90.0, 'C07': 40.0, 'C10': 60.0}
+QUICK_CPU_CAP = {'C01': 600.0, 'C03': 150.0, 'C05': 600.0, 'C18': 60.0, 'C02': 60.0, 'C19': 60.0, 'C07': 40.0, 'C10': 60.0}
 # CPU seconds per shape measured with the C19 harness (lib/shape_costs.json); harnesses that do less per path afford more
 
 
@@ -123,7 +126,7 @@ def quick_list(prop, seed):
     for sh in CURATED:
         c = costs.get(show(sh))
         if c is None:
-            if nsym(sh) <= 3:
+            if nsym(sh) <= 1:
                 out.append(sh)
         elif c <= QUICK_CPU_CAP.get(prop, 40.0):
             out.append(sh)
